@@ -286,3 +286,22 @@ for e, sz in (('p_struct1', 1), ('p_struct4', 4), ('p_struct9', 9), ('p_struct17
     ob(name='print.hexdump_%d_bytes' % sz, kind='FC+', props=['C18'], unit='print', harness='h_print.c', entry=e, unwind=26,
        bound='object size fixed by the type (sizeof = %d): the byte loop has a concrete bound; all byte values and every prior stream state symbolic' % sz)
 LEVELS['C18'] = 'proof'
+
+# ----------------------------------------------------------------------------------------------
+# unit ranges: range matchers over a C array (C11, partial + bounded)
+UNITS['ranges'] = {
+    'opaque': [r'6vp_absILi\dEE7matchesERKi'], 'dyn_types': [],
+    'roots': {
+        "RG_IS3": "13param_matchesINS_17predicate_matcherINS_4impl19is_elements_checkerE.*vp_absILi1EEENS7_ILi2EEENS7_ILi3EEEEEEJS8_S9_SA_EEESt17reference_wrapperIA3_iEE",
+        "RG_IS2": "13param_matchesINS_17predicate_matcherINS_4impl19is_elements_checkerE.*vp_absILi1EEENS7_ILi2EEEEEEJS8_S9_EEESt17reference_wrapperIA3_iEE",
+        "RG_STARTS2": "13param_matchesINS_17predicate_matcherINS_4impl28starts_with_elements_checkerE",
+        "RG_ENDS2": "13param_matchesINS_17predicate_matcherINS_4impl17ends_with_checkerE",
+        "RG_ALL": "13param_matchesINS_17predicate_matcherINS_4impl20range_all_of_checkerE",
+        "RG_ANY": "13param_matchesINS_17predicate_matcherINS_4impl20range_any_of_checkerE",
+        "RG_NONE": "13param_matchesINS_17predicate_matcherINS_4impl21range_none_of_checkerE",
+        "RG_IS_VALUES": "13param_matchesINS_17predicate_matcherINS_4impl19is_elements_checkerE.*JiiiEEEJiiiEEE"
+},
+}
+for e in ('r_is', 'r_is_values', 'r_starts_ends', 'r_all_any_none'):
+    ob(name='ranges.%s' % e[2:], kind='BL', props=['C11'], unit='ranges', harness='h_ranges.c', entry=e, unwind=6,
+       bound='range = C array of length 3 (the length is part of the type, so the loops have a concrete bound); element lists of length 2-3; element matchers abstract (free answer per element) or plain int values')
